@@ -1,6 +1,6 @@
 """C18 — CLI status, diagnostics and written files are consistent and well-located."""
 import harness
-from facts import norm, call_name, short, subnodes, lit_value, matches_on, arm_variants, peel_ty
+from facts import norm, call_name, short, subnodes, lit_value, matches_on, arm_variants, peel_ty, str_lits_in
 from prov import Prov, has_field, has_call
 from templates import enclosing_contexts
 
@@ -328,16 +328,53 @@ def r18f(P, R):
             "human renderer handles builtin positions", "print_positioned_error does not test `builtin`", loc=ppe.loc())
 
 
+def r18g(P, R):
+    """(1) the stage that produces check diagnostics records itself, so the JSON renderer (which prints `check.errors` only if "check"
+    was recorded) cannot drop them when check runs implicitly; (2) operation diagnostics are located in the operation document"""
+    out = CLI + "output::CliOutput"
+    for fn_name, lit in (("check::run_check", "check"), ("generate::run_generate", "generate")):
+        f = P.fn(CLI + fn_name)
+        recs = [c for c in f.walk() if c.get("k") == "MethodCall" and (call_name(c) or "") == out + "::command_run" and lit in str_lits_in(c["args"][0])]
+        R.check("R18-g", "stage-records-itself:" + lit, len(recs) >= 1, "%s records \"%s\" itself" % (fn_name, lit),
+                "%s no longer records that the `%s` stage ran: `generate` runs the check stage implicitly, and json_output prints `check.errors` "
+                "only when \"check\" was recorded, so a failing run exits 1 with no located diagnostic" % (f.path, lit), loc=f.loc())
+    jo = P.fn(out + "::json_output")
+    gate_lits = {v for c in jo.walk() if c.get("k") == "Binary" and c.get("op") == "==" for v in str_lits_in(c)}
+    R.check("R18-g", "json-gates", {"check", "generate"} <= gate_lits, "json_output gates its sections on the recorded stage names",
+            "json_output gates on %s" % sorted(gate_lits), loc=jo.loc())
+    # primary positions of operation diagnostics
+    import c03
+    scope = [P.fns[p] for p in c03.checker_scope(P) if p.startswith(("nitrogql_checker::operation_checker", "nitrogql_checker::common"))]
+    n = 0
+    for f in scope:
+        pv = None
+        for c in f.walk():
+            if c.get("k") == "MethodCall" and c.get("method") == "with_pos":
+                pv = pv or Prov(f)
+                n += 1
+                variants = {norm(y.get("variant") or y.get("ctor_of") or "").split("::")[-1] for y in subnodes(c["recv"]) if "CheckErrorMessage::" in norm(y.get("variant") or y.get("ctor_of") or "")}
+                a = pv.data_atoms(c["args"][0])
+                schema_pos = any(x[0] == "call" and x[1].endswith("original_node_ref") for x in a)
+                if variants <= {"TypeSystemError"} and variants:
+                    continue
+                R.check("R18-g", "primary-position:%s:%s" % (short(f.path), "/".join(sorted(variants)) or "?"), not schema_pos,
+                        "located in the operation document",
+                        "%s reports %s at a position taken from the schema (original_node_ref): the diagnostic is emitted with fileType "
+                        "\"operation\" but its path/line/column point into a schema file, and the offending operation file is not named"
+                        % (f.path, "/".join(sorted(variants))), loc=f.loc())
+    R.floor("R18-g", "with_pos sites in the operation checker", n, 30)
+
+
 def r18pc(P, R):
     from facts import Program
     SC = Program(harness.selfcheck_facts())
     pr = [f.name for f in SC.fns.values() for n in f.walk() if n.get("k") == "Call" and (call_name(n) or "") == "std::io::stdio::_print"]
     R.check("R18-pc", "control:stdout", pr == ["prints"], "stdout-writer control detected", "self-check: println! in the control crate is seen as %s" % pr)
     wr = [f.name for f, c, n in SC.ext_callers(lambda p: p.startswith(WRITE_APIS))]
-    R.check("R18-pc", "control:fs-write", wr == ["writes"], "file-system-write control detected", "self-check: fs::write in the control crate is seen as %s" % wr)
+    R.check("R18-pc", "control:fs-write", set(wr) == {"writes", "opens_without_truncate"}, "file-system-write control detected", "self-check: fs::write in the control crate is seen as %s" % wr)
 
 
-RULES = [("R18-pc", r18pc), ("R18-a", r18a), ("R18-b", r18b), ("R18-c", r18c), ("R18-c", gate), ("R18-d", r18d), ("R18-e", r18e), ("R18-f", r18f)]
+RULES = [("R18-pc", r18pc), ("R18-a", r18a), ("R18-b", r18b), ("R18-c", r18c), ("R18-c", gate), ("R18-d", r18d), ("R18-e", r18e), ("R18-f", r18f), ("R18-g", r18g)]
 EXPLANATION = (
     "Call-graph and control-context facts that hold on all executions: (R18-a) one process::exit site whose code is 0 exactly in "
     "the Ok arm, every diagnostic-recording site lies on a path that returns Err, check succeeds only under errors.is_empty(); "
